@@ -815,6 +815,39 @@ func engineConc(x *X) {
 		fs.Rate, fs.FaultKinds, fs.FaultUnder = p.Knobs.FaultRate, p.Knobs.FaultKinds, x.root
 		defer func() { fs.Rate = 0 }()
 	}
+	// a client that stalls in the middle of a request body for as long as the others are at work: its own request cannot
+	// finish, everybody else's must (its session may be evicted or expire meanwhile)
+	var release, stallerDone simrt.WaitGroup
+	staller, _ := p.Extra["staller"].(bool)
+	if staller {
+		release.Add(1)
+		stallerDone.Add(1)
+		repo := w.repoName(0)
+		x.sim.GoNamed("staller", "client", func() {
+			defer stallerDone.Done()
+			q := w.quiet
+			r := w.do(reqSpec{method: "POST", path: "/v2/" + repo + "/blobs/uploads/", repos: []string{repo}})
+			_ = q
+			if r.Code != 202 {
+				return
+			}
+			u, err := url.Parse(r.H.Get("Location"))
+			if err != nil {
+				return
+			}
+			body := []byte(strings.Repeat("stalled upload ", 20))
+			method := "PATCH"
+			if p.Seed%2 == 0 {
+				method = "PUT"
+				qq := u.Query()
+				qq.Set("digest", digestOf("sha256", body))
+				u.RawQuery = qq.Encode()
+			}
+			x.out.probe("stalled-client")
+			w.do(reqSpec{method: method, path: u.EscapedPath(), query: u.RawQuery, hdr: http.Header{"Content-Type": {"application/octet-stream"}}, body: body, pieces: []int{7}, stall: &release, repos: []string{repo}})
+		})
+		simrt.Sleep(50 * time.Microsecond) // (the stalled request is under way when the others start)
+	}
 	var wg simrt.WaitGroup
 	nc := len(p.Clients) - 1
 	c.done = make([]bool, nc)
@@ -842,6 +875,16 @@ func engineConc(x *X) {
 	wg.Wait()
 	wd.Stop()
 	x.sim.FS.Rate = 0
+	if staller {
+		// the stalled client goes away; its request ends
+		release.Done()
+		wd3 := simrt.AfterFunc(limit, func() {
+			x.viol([]string{"C12"}, "hang.stall", "request of a client that went away: "+stallSig(x.sim.Unfinished()), fmt.Sprintf("%s after the stalled client closed its connection its request has not returned:\n%s", limit, strings.Join(x.sim.Dump(), "\n")))
+			x.sim.Abort("liveness: stalled request stuck")
+		})
+		stallerDone.Wait()
+		wd3.Stop()
+	}
 	x.opIdx = -1
 	if !c.closing {
 		w.settle()
@@ -1301,6 +1344,13 @@ func planC12(prop string, seed uint64, tier string, idx int) *Plan {
 			}
 		}
 		clients = append(clients, ops)
+	}
+	if idx%6 == 1 && idx%5 != 4 && prop == "C12" { // (not with Close or Shutdown in flight: those wait for the stalled request, rightly)
+		g.p.Extra["staller"] = true
+		g.p.Profile += " + a client that stalls mid-body"
+		if k.UploadMax < 0 || k.UploadMax > 2 {
+			k.UploadMax = g.r.pick(1, 2)
+		}
 	}
 	if idx%7 == 3 && prop == "C12" && k.Store == "dir" {
 		// disk errors (mkdir, rename, remove, create fail for single operations) in the middle of the concurrent workload:
